@@ -450,3 +450,122 @@ func ruleEnumWriters(c *Ctx) []Obligation {
 	obs = append(obs, ok(R, "writers of EnumType.ToInt / ToString / last enumerated", c.Pos(set.Pos()), fmt.Sprintf("%d writes outside Set and the constructors", n)))
 	return obs
 }
+
+func init() {
+	register(&Rule{Name: "REV.CURRENT", Props: []string{"C13", "C05"}, Floor: 1,
+		Doc: "a module's current revision is the maximum over all its revision statements",
+		Run: ruleRevCurrent})
+	register(&Rule{Name: "ID.HOIST", Props: []string{"C11", "C13"}, Floor: 1,
+		Doc: "the identities of every module's included submodules are filed, unconditionally",
+		Run: ruleIDHoist})
+}
+
+func ruleRevCurrent(c *Ctx) []Obligation {
+	const R = "REV.CURRENT"
+	fn := c.MustFn("yang.(*Module).Current")
+	con := "Current() is the maximum revision date over all revision statements"
+	modT := c.MustNamed("yang", "Module")
+	fRev := FieldVar(modT, "Revision")
+	var verdict Obligation
+	found := false
+	eachInstr(fn, func(in ssa.Instruction) {
+		r, isRet := in.(*ssa.Return)
+		if !isRet || len(r.Results) != 1 || found {
+			return
+		}
+		phi, isPhi := r.Results[0].(*ssa.Phi)
+		if !isPhi {
+			// returned from a loop-exit block: follow one phi-less copy
+			return
+		}
+		h := phi.Block()
+		if !isLoopHeader(h) {
+			return
+		}
+		// the loop ranges over s.Revision
+		overRev := false
+		eachInstr(fn, func(in2 ssa.Instruction) {
+			if ia, ok := in2.(*ssa.IndexAddr); ok && h.Dominates(ia.Block()) {
+				if _, f, _ := loadedField(ia.X); f == fRev {
+					overRev = true
+				}
+			}
+		})
+		// the update edge is guarded by name > phi
+		maxUpd := false
+		for i, e := range phi.Edges {
+			if e == ssa.Value(phi) {
+				continue
+			}
+			if k, ok := e.(*ssa.Const); ok && k.Value != nil {
+				continue // initial ""
+			}
+			pred := h.Preds[i]
+			for _, g := range append(guardsAt(pred), lastIfGuard(pred, h)...) {
+				bo, ok := g.Cond.(*ssa.BinOp)
+				if !ok {
+					continue
+				}
+				if (bo.Op == token.GTR && bo.Y == ssa.Value(phi) && sameObject(bo.X, e) && g.Branch) || (bo.Op == token.LSS && bo.X == ssa.Value(phi) && sameObject(bo.Y, e) && g.Branch) {
+					maxUpd = true
+				}
+			}
+		}
+		found = true
+		if overRev && maxUpd {
+			verdict = ok(R, con, c.InstrPos(phi), "for _, r := range s.Revision { if r.Name > rev { rev = r.Name } }")
+		} else {
+			verdict = bad(R, con, c.InstrPos(phi), fmt.Sprintf("loops over all revisions: %v; keeps the greater date: %v", overRev, maxUpd))
+		}
+	})
+	if !found {
+		return []Obligation{bad(R, con, c.Pos(fn.Pos()), "the result is not accumulated over a loop: a module whose revisions are not listed newest-first is filed under the wrong date")}
+	}
+	return []Obligation{verdict}
+}
+
+// lastIfGuard: the condition of the edge pred → succ when pred ends in an If.
+func lastIfGuard(pred, succ *ssa.BasicBlock) []Guard {
+	if len(pred.Instrs) == 0 {
+		return nil
+	}
+	ifi, ok := pred.Instrs[len(pred.Instrs)-1].(*ssa.If)
+	if !ok || pred.Succs[0] == pred.Succs[1] {
+		return nil
+	}
+	return []Guard{{Cond: ifi.Cond, Branch: pred.Succs[0] == succ, If: ifi}}
+}
+
+func ruleIDHoist(c *Ctx) []Obligation {
+	const R = "ID.HOIST"
+	fn := c.Fn("yang.(*Modules).resolveIdentities")
+	if fn == nil {
+		return []Obligation{undecided(R, "identity resolver", "-", "resolveIdentities not found")}
+	}
+	modT := c.MustNamed("yang", "Module")
+	fInclude := FieldVar(modT, "Include")
+	con := "for every module, the identities of its included submodules are filed"
+	var hdr *ssa.BasicBlock
+	eachInstr(fn, func(in ssa.Instruction) {
+		if ia, ok := in.(*ssa.IndexAddr); ok {
+			if _, f, _ := loadedField(ia.X); f == fInclude {
+				hdr = loopHeaderOf(ia.Block())
+			}
+		}
+	})
+	if hdr == nil {
+		return []Obligation{bad(R, con, c.Pos(fn.Pos()), "no loop over Module.Include in the identity resolver: identities written in submodules are never registered")}
+	}
+	var extra []string
+	for _, g := range guardsAt(hdr) {
+		if isLoopHeader(g.If.Block()) {
+			continue
+		}
+		extra = append(extra, c.InstrPos(g.If))
+	}
+	// the block that loads mod.Include (loop pre-header) may also be guarded
+	if len(extra) == 0 {
+		return []Obligation{ok(R, con, c.InstrPos(hdr.Instrs[0]), "the include loop runs for every module (no guard besides the loops)")}
+	}
+	return []Obligation{bad(R, con, c.InstrPos(hdr.Instrs[0]), "the include loop is skipped under a condition ("+extra[0]+"): a module whose identities all live in submodules loses them")}
+}
